@@ -308,3 +308,15 @@ Definition reuse_stale (k : nat) (f : bytes -> bytes) (q : bytes) : outcome * tc
     [writeQuery(q, assignedQid)]: the same bytes under the same wire id. *)
 Definition udp_sends (q : bytes) (qid : N) (n : nat) : list bytes :=
   repeat (udp_wire_query q qid) n.
+
+(** * Idle TCP connections the server closed while they were idle
+
+    The connection's reader sees EOF, [closeWithErr] deletes the connection
+    from [t.conns] and [t.idleConns] (Model/Reuse.v: a connection the client
+    saw die is in neither set, an idle connection is open).  Of [k] idle
+    connections of which [d] died that way only [k - d] can still be handed
+    out by getIdleConn. *)
+Definition idle_after_noticed_deaths (k d : nat) : nat := (k - d)%nat.
+
+Definition reuse_dead_idle (k : nat) (f : bytes -> bytes) (q : bytes) : outcome * tcp_eff :=
+  reuse_stale (idle_after_noticed_deaths k k) f q.
